@@ -85,6 +85,11 @@ def run(repo, rep, tier):
     # (C18 owns the conversion: it runs before the values are decoded)
     from . import c18 as _c18
     L.borrow(repo, rep, "R04.1", "C18", _c18._keyed, ("convert-first",))
+    # "expressions in parts that are not rendered are never evaluated": a
+    # taken case cancels the switch before its body runs (C01 owns the
+    # emitter skeletons)
+    from . import c01 as _c01
+    L.borrow(repo, rep, "R04.4", "C01", _c01._skeletons, ("cancel-order",))
     L.state_rule(repo, rep)
 
 
